@@ -4,7 +4,7 @@ obligation.  This check re-runs the symbolic executions of the other properties'
 obligations (and the path-coverage obligations that make them meaningful)."""
 import importlib
 
-SOURCES = ['c01', 'c02', 'c03', 'c07', 'c09', 'c10', 'c13', 'c14', 'c08', 'c11', 'c16', 'c17', 'c06', 'c15', 'c19']      # c02 includes the evaluator arms and the wildcard matcher; c06 the JSON / protobuf conversions; c19 the FFI and CLI wrappers
+SOURCES = ['c01', 'c02', 'c03', 'c05', 'c07', 'c09', 'c10', 'c13', 'c14', 'c08', 'c11', 'c16', 'c17', 'c06', 'c15', 'c19']      # c02 includes the evaluator arms and the wildcard matcher; c06 the JSON / protobuf conversions; c19 the FFI and CLI wrappers
 THOROUGH_SOURCES = ['c04']                                                                      # the closure algorithms on symbolic graphs (minutes)
 
 
